@@ -45,6 +45,95 @@ def gen_pair(rng):
     return kind, A, B
 
 
+def nest_pair(rng):
+    """A = polygon with holes; B assembled from pieces placed relative to A's holes (inside a hole, around a hole without
+    touching it, between holes, across the shell) as Polygon / MultiPolygon / collection / lines / points.
+    Aimed at containment short-cuts that look at one representative vertex per element."""
+    W = rng.choice([40, 60, 100]); H = rng.choice([40, 60])
+    shell = G.rect_ring(0, 0, W, H) if rng.random() < 0.5 else [(0, 0), (W, 0), (W + 5, H // 2), (W, H), (0, H), (-5, H // 2), (0, 0)]
+    nh = rng.randint(1, 2)
+    holes, centres = [], []
+    for i in range(nh):
+        cx = (i + 1) * W // (nh + 1); cy = H // 2
+        r = rng.randint(2, 4)
+        holes.append(G.rect_ring(cx - r, cy - r, cx + r, cy + r)[::-1]); centres.append((cx, cy, r))
+    A = ('Polygon', [shell] + holes)
+    pieces = []
+    for _ in range(rng.randint(1, 3)):
+        cx, cy, r = rng.choice(centres)
+        k = rng.random()
+        if k < 0.3:      # surrounds the hole, no contact
+            m = r + rng.randint(1, 3)
+            pieces.append(('Polygon', [G.rect_ring(cx - m, cy - m, cx + m, cy + m)]))
+        elif k < 0.45:   # annulus around the hole (own hole strictly larger than A's hole): really inside A
+            m = r + rng.randint(3, 5)
+            pieces.append(('Polygon', [G.rect_ring(cx - m, cy - m, cx + m, cy + m), G.rect_ring(cx - r - 1, cy - r - 1, cx + r + 1, cy + r + 1)[::-1]]))
+        elif k < 0.6:    # inside the hole
+            pieces.append(('Polygon', [G.rect_ring(cx - 1, cy - 1, cx + 1, cy + 1)]))
+        elif k < 0.8:    # small piece in A's interior away from holes
+            x = rng.choice([2, W - 6]); y = rng.choice([2, H - 6])
+            pieces.append(('Polygon', [G.rect_ring(x, y, x + 3, y + 3)]))
+        else:            # line through the hole / point in the hole
+            pieces.append(('LineString', [(cx - r - 2, cy), (cx + r + 2, cy)]) if rng.random() < 0.5 else ('Point', (cx, cy)))
+    polys = [q for q in pieces if q[0] == 'Polygon']
+    # keep polygonal pieces pairwise disjoint (valid MultiPolygon): drop later ones that meet earlier envelopes
+    kept = []
+    for q in polys:
+        xs = [p[0] for p in q[1][0]]; ys = [p[1] for p in q[1][0]]
+        e = (min(xs), max(xs), min(ys), max(ys))
+        if all(e[1] < f[0] or f[1] < e[0] or e[3] < f[2] or f[3] < e[2] for f in [k2[1] for k2 in kept]):
+            kept.append((q, e))
+    polys = [k2[0] for k2 in kept]
+    others = [q for q in pieces if q[0] != 'Polygon']
+    form = rng.random()
+    if polys and form < 0.45:
+        B = ('MultiPolygon', polys)
+    elif polys and form < 0.6:
+        B = polys[0]
+    elif form < 0.8:
+        B = ('GeometryCollection', polys + others) if (polys or others) else ('Point', (1, 1))
+    else:
+        B = others[0] if others else (polys[0] if polys else ('Point', (1, 1)))
+    return A, B
+
+
+def lineal_cover_pair(rng):
+    """B = a polyline; A = multi-line made of pieces lying ON B (sub-segments between lattice points of B's segments) and
+    pieces disjoint from B but inside env(B). Aimed at short-cuts that skip exterior checks for one operand."""
+    n = rng.randint(2, 4)
+    pts = [(0, 0)]
+    for _ in range(n):
+        dx, dy = rng.choice([(10, 0), (0, 10), (10, 10), (-10, 10), (20, 0)])
+        pts.append((pts[-1][0] + dx, pts[-1][1] + dy))
+    B = ('LineString', pts)
+    els = []
+    for _ in range(rng.randint(1, 3)):
+        i = rng.randrange(len(pts) - 1)
+        (x0, y0), (x1, y1) = pts[i], pts[i + 1]
+        t0, t1 = sorted(rng.sample(range(0, 11), 2))
+        els.append(('LineString', [(x0 + (x1 - x0) * t0 // 10, y0 + (y1 - y0) * t0 // 10), (x0 + (x1 - x0) * t1 // 10, y0 + (y1 - y0) * t1 // 10)]))
+    xs = [p[0] for p in pts]; ys = [p[1] for p in pts]
+    for _ in range(rng.randint(0, 2)):
+        x = rng.randint(min(xs), max(xs)); y = rng.randint(min(ys), max(ys))
+        els.append(('LineString', [(x, y), (x + rng.choice([0, 1]), y + 1)]) if rng.random() < 0.7 else ('Point', (x, y)))
+    lines = [e for e in els if e[0] == 'LineString']
+    A = ('MultiLineString', lines) if all(e[0] == 'LineString' for e in els) else ('GeometryCollection', els)
+    if rng.random() < 0.3 and len(lines) == 1 and len(els) == 1:
+        A = lines[0]
+    return A, B
+
+
+def structured_pair(rng):
+    A, B = nest_pair(rng) if rng.random() < 0.5 else lineal_cover_pair(rng)
+    kind = 'structured'
+    if rng.random() < 0.4:
+        f = G.to_full_precision(rng, A)
+        A, B = G.map_coords(A, f), G.map_coords(B, f)
+    if rng.random() < 0.5:
+        A, B = B, A
+    return kind, A, B
+
+
 def rect_pairs(rng):
     """axis-parallel rectangle vs the same polygon with one redundant collinear vertex: every answer must coincide"""
     x0, y0 = rng.randint(-50, 50), rng.randint(-50, 50)
@@ -91,7 +180,7 @@ def run(ctx):
                 a, b = l.split('|')[:2]
                 cases.append(('corpus', a, b, None, None))
     for _ in range(n):
-        kind, A, B = gen_pair(rng)
+        kind, A, B = gen_pair(rng) if rng.random() < 0.6 else structured_pair(rng)
         cases.append((kind, G.to_wkt(A), G.to_wkt(B), G.dim_real(A), G.dim_real(B)))
     nrect = n // 10
     rects = []
